@@ -235,6 +235,19 @@ def rule_choices(run):
                     cnt = True
     run.ob(cnt, "try_gen_case_when.check_branches", file=gen.rel, line=cb.node.lineno, detail="distinct-objects", expected="len(<identity map of choices>) is compared with the number of branches (the same object in two patterns is one map entry)",
            found="ok" if cnt else "never compared: `case St.A` twice is one entry of the identity map and is emitted as two identical `when A` choices")
+    # the duplicate test compares choices of ONE type: every pattern value of a match statement is first converted to the
+    # subject's type (a literal 3 and a named constant Unsigned[4](3) are the same choice), whatever kind of value it is
+    prep = run.idx.mod("cohdl/_compiler/frontend/_prepare_ast.py")
+    ai = prep.func("PrepareAst.apply_impl")
+    norm = [c for c in ast.walk(ai.node) if isinstance(c, ast.Call) and dotted(c.func) == "_make_static_comparable" and len(c.args) == 2
+            and any(isinstance(a, ast.If) and "ast.Match" in src(a.test) for a in prep.parents.ancestors(c))]
+    if not norm:
+        raise AnalysisError("apply_impl[ast.Match]: normalisation of the pattern value not found")
+    for c in norm:
+        pv = dotted(c.args[1])
+        cond = [src(a.test)[:60] for a in prep.parents.ancestors(c) if isinstance(a, ast.If) and pv and pv in {n_.id for n_ in ast.walk(a.test) if isinstance(n_, ast.Name)}]
+        run.ob(not cond, "apply_impl[ast.Match]", file=prep.rel, line=c.lineno, detail="patterns-normalised", expected=f"_make_static_comparable(subject, {pv}) for every pattern value",
+               found="ok" if not cond else f"only if {cond}: choices of different types are never recognised as duplicates")
     run.ob(dup, "try_gen_case_when.check_branches", file=gen.rel, line=cb.node.lineno, detail="distinct-choices", expected="equal constant choices make the chain ineligible for a case statement (fall back to if/else)", found="ok" if dup else "choices are never compared: `case \"00\"` twice is emitted as two identical `when` choices")
     s = m.func("SelectWith.write")
     # abstract evaluation on the two-point domain default in {None, value}
